@@ -89,6 +89,11 @@ def run(e: Engine, rep: Report):
              'exactly-once); the pool itself never settles a request a '
              'client may still hold or may have given back')
     l11(e, rep)
+    rep.rule('L12', 'who-may-kill: in the relay modules a pool / relayer / '
+             'client is killed only from a kill() method (shutdown): never '
+             'on the attempt path, where the clients killed may hold '
+             'requests that nobody settles any more')
+    l12(e, rep)
 
 
 
@@ -818,3 +823,30 @@ def l11(e: Engine, rep: Report):
                 loc=f.loc(c), reason='inside a pool client')
     if n < 5:
         rep.error('anchor vanished: request settle sites (%d < 5)' % n)
+
+
+# --------------------------------------------------------------------- L12
+def l12(e: Engine, rep: Report, rule: str = 'L12'):
+    n = 0
+    for f in e.p.functions.values():
+        if not f.module.name.startswith('slimta.relay'):
+            continue
+        for c in walk_own(f.node):
+            if not (isinstance(c, ast.Call) and
+                    isinstance(c.func, ast.Attribute) and
+                    c.func.attr in ('kill', 'killall', 'killone')):
+                continue
+            n += 1
+            rep.evaluations += 1
+            rep.functions.add(f.qname)
+            rep.check(f.name in ('kill', '__del__'), rule, f.qname,
+                      '`%s`' % ' '.join(ast.unparse(c).split())[:50],
+                      '%s kills relay greenlets outside shutdown: a client '
+                      'killed in the middle of a delivery (or with requests '
+                      'waiting in its pool\'s queue) never settles them - '
+                      'the attempt waits for ever, the message stays in '
+                      'flight and is neither retried nor bounced'
+                      % f.qname, loc=f.loc(c), reason='inside kill()')
+    if n < 1:
+        rep.error('anchor vanished: kill sites of the relay modules (%d < 1)'
+                  % n)
